@@ -1124,7 +1124,7 @@ func (prop) Generate(r *prng.Rand, phase string) any {
 	g.cfg = mgeom.SwarmCfg(r, []int{1, 2, 3, 4})
 	g.cfg.FloatMode = []int{0, 0, 0, 2}[r.Intn(4)] // mostly small values; one run in four any finite value (formatting paths, overflow paths)
 	g.cfg.Types = mgeom.AllTypes
-	if g.cfg.MaxCoords > 8 {
+	if g.cfg.MaxCoords > 8 && g.cfg.ExactCoords == 0 {
 		g.cfg.MaxCoords = 8
 	}
 	g.cfg.MaxDepth = r.Range(0, 2)
